@@ -79,6 +79,11 @@ REBIND = [  # (label, body, libraries the declared devices need, finding id or N
     ("servo->servo", "a = Servo(9)\na = Servo(10)\na.write(5)\n", {"Servo"}, None),
     ("servo->button", "dev = Servo(9)\ndev.write(5)\ndev = Button(2)\n", {"Servo"}, None),
     ("two-names", f"a = Button(2)\nb = Servo(9)\nc = {PAR}\nb.write(1)\n", {"Servo", "LiquidCrystal"}, None),
+    # names of library classes / headers that occur only in strings and comments; blanks before the parenthesis of a constructor
+    ("names-in-text", "led = Led(3)\nmon.write(\"No Servo attached\")\ntitle = \"LiquidCrystal_I2C demo\"\nmon.write(title)  # LCD( Servo(\nmon.write(\"#include <Servo.h>\")\n", set(), None),
+    ("lcd-text-mentions-servo", f"c = {PAR}\nc.line(0, \"Servo : off\")\nmon.write(\"LiquidCrystal_I2C?\")\n", {"LiquidCrystal"}, None),
+    ("spaced-ctors", "dev = Servo (9)\ndev.write (90)\nb = LCD (i2c_addr=39)\nb.line (0, \"x\")\n", {"Servo", "LiquidCrystal_I2C"}, None),
+    ("servo-then-lcd-after-other-devices", f"bz = Buzzer(8)\nsv = Servo(9)\nled = Led(3)\nc = {PAR}\nsv.write(1)\n", {"Servo", "LiquidCrystal"}, None),
     ("parallel-lcd->i2c-lcd", f"dev = {PAR}\ndev = LCD(i2c_addr=39)\ndev.line(0, \"x\")\n", {"LiquidCrystal", "LiquidCrystal_I2C"}, "KF-lcd-rebind-other-interface"),
     ("i2c-lcd->parallel-lcd", f"dev = LCD(i2c_addr=39)\ndev = {PAR}\ndev.line(0, \"x\")\n", {"LiquidCrystal", "LiquidCrystal_I2C"}, "KF-lcd-rebind-other-interface"),
 ]
